@@ -13,6 +13,14 @@ TRUST = ("Runtime monitoring: decides only the executions produced. Trusted base
 T = {
  "C01": ("runtime monitoring: exhaustive bounded mask enumeration + icontract postconditions on the gather/scatter/index utilities, NumPy boolean-indexing reference model",
          "Every boolean mask of every shape with H*W<=12 (quick) / <=16 (thorough), all 1-D masks to the same bound and seeded hostile larger masks are executed through the real constructors; a NumPy reference decides every slim/native/index result bit-exactly and contracts on the nine utilities see every internal call. Exhaustive for the stated bound, sampled beyond it - exploration, not proof.", "DESIGN.md 3/C01"),
+ "C03": ("runtime monitoring: operator extraction on basis images of the real Convolver/Kernel2D/SimulatorImaging against a plain-loop convolution matrix; icontract postcondition on convolve_matrix_jit",
+         "For seeded (mask, odd kernel) pairs with holes, several components, non-square / signed / sparse kernels the whole blurring operator is extracted from the real code on basis images of the mask and of the blurring region and compared entry-wise with K[t-s+half] built from the definition; mapping matrices of five kinds (0/1, fractional, down to 1e-6, signed, sparse) must map to C_ref@M; garbage outside mask+blurring region must not change a bit; even kernels must raise; a noise-free simulation must be refitted with zero residual. Exploration over sampled operators.", "DESIGN.md 3/C03"),
+ "C04": ("runtime monitoring: both real inversion formalisms executed on seeded datasets and compared with a dense reference B^T N^-1 d / B^T N^-1 B, metamorphic block permutation, re-reads after the solve",
+         "Seeded imaging datasets (non-square and signed PSFs, noise levels 1e-3..1e4, sub-size 1..2) with ordered lists of 1..3 rectangular/Delaunay mappers and signed function lists are inverted with use_w_tilde on and off; D, F (before and after the solve), the operated mapping matrix, reconstruction and mapped data are compared with an independent dense reference and with each other, F must be symmetric and block order must follow permutations of the object list. Exploration.", "DESIGN.md 3/C04"),
+ "C05": ("runtime monitoring: KKT-certificate oracle on the real fnnls solver and inversions, scipy nnls cross-check, sys.monitoring frame capture of the solver paths",
+         "Seeded SPD systems (cond up to 1e8, negative off-diagonals, five right-hand-side families, five warm-start modes) and seeded inversions over the settings grid in both formalisms under the test and the production configuration are solved by the real code; every returned s must satisfy the KKT certificate of the NNLS problem (backward error for the unconstrained solver), agree with scipy.optimize.nnls when well conditioned, be exactly zero on forced parameters, and per-object model data must equal B_obj s_obj and sum to the total. Frame capture proves the warm-start / constraint-fixing paths actually ran. Exploration.", "DESIGN.md 3/C05"),
+ "C06": ("runtime monitoring: per-sub-pixel geometric oracle (cell containment, barycentric reproduction, brute-force hull test) on real mappers, dense/sparse decode, adjacency reference; icontract row-sum contract",
+         "Seeded rectangular and Delaunay mappers (per-pixel sub-sizes 1..4, distorted source grids, non-square meshes, points outside the hull) are built with the real code; every sub-pixel's reported cell/triangle and weights are decided geometrically, the dense matrix and the unique-mapping encoding are rebuilt independently, rows must be non-negative and sum to one, neighbour lists must equal the mesh adjacency. Exploration.", "DESIGN.md 3/C06"),
 }
 REASON_WIP = "check not built yet in this revision (work in progress; the property is decidable by runtime monitoring, see DESIGN.md section 3)"
 ALL = ["C%02d" % i for i in range(1, 21)]
